@@ -12,11 +12,11 @@ After the repair of F07 (/repo 1e2d662: `math.Round` before the conversion to an
 trip through the helpers, the validator and the CSV reader is the identity: `C12_helpers`,
 `C12_value_route`, `C12_validator`, `C12_csv`, `C12_slice` — for every integer type of at most 32 bits, every raw value and every profile
 pair; for int64 on the exact domain |raw| ≤ 2^49 (`C12_helpers_int64`). The generated `SetXxxScaled` setters still
-truncate in their own code: `C12_typed_full_fails` (open finding KF-C12-2) and `C12_typed_pow2_partial`.
+truncate in their own code: `C12_typed_full_fails` (open finding KF-C12-2); what holds of them is `C12_typed_pow2_partial`.
 
 PROPERTY THEOREMS (audited by ./check): C12_f64_round_err, C12_scale_roundtrip_rounded, C12_profile_pairs_in_range,
 C12_helpers, C12_helpers_int64, C12_value_route, C12_validator, C12_csv, C12_slice, C12_unit_identity,
-C12_datetime, C12_semicircles, C12_typed_full_fails, C12_F07_witness_fixed
+C12_datetime, C12_semicircles, C12_typed_full_fails, C12_typed_pow2_partial, C12_F07_witness_fixed
 -/
 namespace Fit.C12
 open Fit.F64 Fit.ScaleOffset Fit.Value Fit.C12L
@@ -215,5 +215,28 @@ theorem C12_typed_full_fails : ¬ C12_typed_full := by
   have := h .u16 0xFFFF 29 (0x4059000000000000, 0) (by decide) (by decide) (by decide) (by decide +kernel)
   revert this
   decide +kernel
+
+/-- the invalid sentinel of the generated accessors: the largest value of the type -/
+def maxPat (ty : IntTy) : Nat := if ty.signed then 2 ^ (ty.bits - 1) - 1 else 2 ^ ty.bits - 1
+
+/-- **C12_typed_pow2_partial** (what holds of the generated accessors on the pinned tree): for a power-of-two scale in
+[1/2, 2^16] and a zero offset — `pow2OK`, decidable on the bit patterns — the float64 arithmetic is exact at every step,
+nothing is left for the truncating conversion to cut off, and `SetXxxScaled(XxxScaled())` returns every raw value other
+than the invalid sentinel, for every integer type of at most 32 bits. (For the other pairs see `C12_typed_full_fails`.) -/
+theorem C12_typed_pow2_partial (ty : IntTy) (hty : ty.bits ≤ 32) (r : Nat) (hr : r < 2 ^ ty.bits)
+    (hrinv : r ≠ maxPat ty) (s o : Nat) (h : pow2OK s o = true) :
+    typedRT ty (maxPat ty) r s o = r := by
+  have hrb : (ty.toInt r).natAbs ≤ 2 ^ 32 :=
+    le_trans (toInt_natAbs_le ty r) (Nat.pow_le_pow_right (by norm_num) hty)
+  obtain ⟨hfin, h64⟩ := pow2_exact (ty.toInt r) hrb s o h
+  have hmax : ty.toInt r ≤ ty.toInt (maxPat ty) ∧ 0 < ty.toInt (maxPat ty) := by
+    cases ty <;> simp only [IntTy.toInt, maxPat, IntTy.signed, IntTy.bits, true_and, Bool.false_eq_true, false_and,
+      if_false, if_true] at hr ⊢ <;> (try split_ifs) <;> omega
+  exact typed_exact ty hty r (maxPat ty) s o hr hrinv hmax.1 hmax.2 h64 hfin
+
+/-- non-vacuity: 8 of the profile's scale/offset pairs are powers of two with a zero offset; the sentinel of the
+generated accessors is `maxPat` (0xFFFF for uint16) -/
+example : ((profilePairs.eraseDups).filter fun p => pow2OK p.1 p.2).length = 8 ∧ maxPat .u16 = 0xFFFF ∧
+    pow2OK 0x4070000000000000 0 = true := by decide +kernel
 
 end Fit.C12
